@@ -471,8 +471,16 @@ def bapply_real(objs, e):
         p.children = [p.right, p.left]
     elif e[0] == "bmove":
         n, q = objs[e[1]], objs[e[2]]
-        n.parent = None
-        if e[3] == 0:
+        # three spellings of the same move (a function of the edit): detach first; let the slot setter take the node
+        # away from its present parent; assign both slots of the new parent at once
+        mode = (e[1] * 7 + e[2] * 3 + e[3]) % 3
+        if n.parent is q:
+            mode = 0          # within one parent the other two spellings list the node twice (refused)
+        if mode == 0:
+            n.parent = None
+        if mode == 2:
+            q.children = [n, q.right] if e[3] == 0 else [q.left, n]
+        elif e[3] == 0:
             q.left = n
         else:
             q.right = n
